@@ -220,6 +220,20 @@ func (l *link) Delete(key string) error {
 	return err
 }
 
+// linkRD is a link whose store also offers the revision-checked delete (leader.RevisionDeleter), as the
+// library's NATS adapter does; a plain link stands for a custom store without it.
+type linkRD struct{ *link }
+
+func (l linkRD) DeleteRevision(key string, rev uint64) error {
+	_, err := l.exec(OpDelete, key, nil, rev, func(rec *OpRec) error {
+		v, e := l.s.store.DeleteRev(key, rev, rec.Actor)
+		rec.Ver = v
+		rec.CondDelete = true
+		return e
+	})
+	return err
+}
+
 func (l *link) Watch(key string, opts ...interface{}) (leader.Watcher, error) {
 	var lw *linkWatcher
 	_, err := l.exec(OpWatch, key, nil, 0, func(rec *OpRec) error {
